@@ -82,9 +82,31 @@ QUICK = [
 ]
 
 
+def twin_case(cid, cond_term, L):
+    body = f"""
+PT = (('prim', 'xs'), ('list', NULL))
+CT = {cond_term}
+doc = {{'xs': [1, True, 1.0, 0, False, 0.0, u1, 2, 2.0], 'ys': {{'a': u1}}}}
+rule = Rule(build_path(PT), build_cond(CT))
+t = rule.test(doc)
+valid, tested, fails = ref_rule(PT, CT, doc)
+ok = same('is_valid', t.is_valid, valid) and same('num_failures', t.num_failures, len(fails))
+ok = ok and same('failing paths', tx([tuple(f.path) for f in t.failures]), tx([cp for _, cp in fails]))
+ok = ok and note('failure values are the failing nodes', len(t.failures) == len(fails) and all(f.value is v for f, (v, _) in zip(t.failures, fails)))
+return ok
+"""
+    return mk_case(f"c05.twins.{cid}", [("u1", "Union[bool, None, str]")], body, pre=[f"BU({L}, u1)"], stubs=["sym_repr"])
+
+
 def cases(ctx):
     L = 2 if ctx.quick else 3
     out = []
+    # values that compare equal but differ in type (1 / True / 1.0, 0 / False / 0.0) under type-sensitive conditions
+    for cid, ct in [("dtype_int", "leaf('value', 'dtype', 'equal_to', int)"), ("dtype_bool", "leaf('value', 'dtype', 'equal_to', bool)"),
+                    ("dtype_in", "leaf('value', 'dtype', 'in_', [float, bool])"), ("is_instance_bool", "V('is_instance', bool)"),
+                    ("is_instance_float", "('or', V('is_instance', float), V('equal_to', None))"),
+                    ("dtype_ne", "('and', leaf('value', 'dtype', 'not_equal_to', float), V('truthy'))")]:
+        out.append(twin_case(cid, ct, L))
     if ctx.quick:
         for sh, c, d in QUICK:
             out.append(rule_case(sh, c, d, L))
